@@ -86,6 +86,42 @@ func mutationsFor(raw []byte, d *Decoded, limitPerClass int) []mutation {
 			})
 		}
 	}
+	// 6b. a page whose first key is below the separator its parent holds for it (but still above the left
+	//     sibling's keys): order relative to the PARENT is broken, order inside the page and between
+	//     neighbouring pages is not
+	for _, br := range branches {
+		o := pageOff(br, ps)
+		cnt := int(binary.LittleEndian.Uint16(raw[o+10:]))
+		for i := 1; i < cnt; i++ {
+			child := binary.LittleEndian.Uint64(raw[o+16+16*i+8:])
+			co := pageOff(child, ps)
+			if co+32 > len(raw) {
+				continue
+			}
+			cflags := binary.LittleEndian.Uint16(raw[co+8:])
+			ccnt := int(binary.LittleEndian.Uint16(raw[co+10:]))
+			if ccnt == 0 {
+				continue
+			}
+			var koff, klen int
+			if cflags == flagLeaf {
+				e := co + 16
+				koff = e + int(binary.LittleEndian.Uint32(raw[e+4:]))
+				klen = int(binary.LittleEndian.Uint32(raw[e+8:]))
+			} else if cflags == flagBranch {
+				e := co + 16
+				koff = e + int(binary.LittleEndian.Uint32(raw[e:]))
+				klen = int(binary.LittleEndian.Uint32(raw[e+4:]))
+			} else {
+				continue
+			}
+			if klen < 3 || koff+klen > len(raw) || raw[koff+klen-1] == 0 {
+				continue
+			}
+			last := koff + klen - 1
+			add("separator-order", fmt.Sprintf("branch%d-child%d-pg%d", br, i, child), func(raw []byte) { raw[last]-- })
+		}
+	}
 	// 3b. two buckets sharing one root page (bucket headers inside leaf values)
 	type bref struct{ off int }
 	var brefs []bref
@@ -232,7 +268,7 @@ func CheckC19(c *Ctx) int {
 	c.traces = len(events)
 	c.Cov["evaluations"] = len(events)
 	c.Cov["distinct_nontrivial"] = len(events)
-	c.Cov["rule"] = "one copy per (consistent file, corruption class, eligible page / element): unreachable-unfreed, reachable-free, referenced-twice (branch element and bucket root), freed-twice, invalid-type, key-order; plus every unmutated file; Tx.Check (array and hash-map backend alternating) and `bbolt check` (exit status) are compared with Consistent(graph) evaluated by TLC; all cases distinct by construction"
+	c.Cov["rule"] = "one copy per (consistent file, corruption class, eligible page / element): unreachable-unfreed, reachable-free, referenced-twice (branch element and bucket root), freed-twice, invalid-type, key-order (adjacent elements swapped), separator-order (first key of a page lowered below its parent's separator); plus every unmutated file; Tx.Check (array and hash-map backend alternating) and `bbolt check` (exit status) are compared with Consistent(graph) evaluated by TLC; all cases distinct by construction"
 	return c.Finish(classifyC19)
 }
 
